@@ -43,6 +43,14 @@ def literals():
         s = emit(s)
         if s is not None:
             yield s
+    # long integers: word-size boundaries in every radix
+    for prefix, digits, maxlen in (("0b", "01", 70), ("0B", "01", 70), ("0o", "01234567", 30), ("0O", "01234567", 30), ("0x", "0123456789abcdefF", 20), ("0X", "0123456789abcdefF", 20), ("", "123456789", 40)):
+        for ln in range(1, maxlen + 1):
+            for dgt in digits:
+                for body in (dgt * ln, "1" + "0" * (ln - 1), "_".join(dgt * ln)):
+                    s = emit(prefix + body)
+                    if s is not None:
+                        yield s
     # long mantissas: digit strings of 18-40 digits with the point at every position, plain, with an exponent, imaginary
     for digits in DIGITS:
         for total in (18, 20, 25, 33, 40):
